@@ -303,5 +303,5 @@ def campaigns(tier):
         Campaign("outage_window", "hyp", execute=execute, strategy=lambda: PS.strategy("outage"),
                  examples=12000 if th else 1500, setup=PS.setup, max_wall=400 if th else 60, shrink_wall=30),
         Campaign("txn_chain", "hyp", execute=execute_txn, strategy=_txn_strategy,
-                 examples=10000 if th else 1500, setup=_txn_setup, max_wall=400 if th else 60, shrink_wall=30),
+                 examples=20000 if th else 4000, setup=_txn_setup, max_wall=400 if th else 60, shrink_wall=30),
     ]
